@@ -5,7 +5,9 @@
   character (\uXXXX: the code point; a surrogate pair: the astral character), malformed
   escapes and unpaired surrogates are errors; literal nodes evaluate to themselves on every
   input; an array constructor keeps nested constructors and non-array values as units (no
-  flattening, no singleton collapse).  Partial (DESIGN.md §6 C11): that the parser maps every
+  flattening, no singleton collapse); and for every JSON value with unique keys, of any depth and width,
+  its expression tree evaluates to that value on every input, in every environment, leaving the store as it
+  was (`literal_denotes`).  Partial (DESIGN.md §6 C11): that the parser maps every
   JSON text to the corresponding tree, and the nearest-double reading of number literals, are
   carried by the correspondence against encoding/json.
 -/
@@ -128,6 +130,261 @@ theorem object_single_member (r : Rec N) (d : Val N) (env : Nat) (st st1 : Store
     cases d <;> simp [Val.isArr] at hd ⊢
   cases d <;> simp [Val.isArr] at hd <;>
     simp [evalObject, groupPairsLoop, evalObject.build, hv]
+
+/-! ### every JSON value denotes itself (all depths and widths) -/
+
+/-- JSON values (the statement's "JSON text" after reading it) -/
+inductive Json (N : Type) : Type
+  | null
+  | bool (b : Bool)
+  | num (x : N)
+  | str (s : String)
+  | arr (xs : List (Json N))
+  | obj (kvs : List (String × Json N))
+
+mutual
+def toNode : Json N → Node N
+  | .null => .null
+  | .bool b => .bool b
+  | .num x => .num x
+  | .str s => .str s
+  | .arr xs => .array (toNodeL xs)
+  | .obj kvs => .object (toNodeKV kvs)
+def toNodeL : List (Json N) → List (Node N)
+  | [] => []
+  | j :: js => toNode j :: toNodeL js
+def toNodeKV : List (String × Json N) → List (Node N × Node N)
+  | [] => []
+  | (k, j) :: rest => (.str k, toNode j) :: toNodeKV rest
+end
+
+mutual
+def toVal : Json N → Val N
+  | .null => .null
+  | .bool b => .bool b
+  | .num x => .num x
+  | .str s => .str s
+  | .arr xs => .arr (toValL xs)
+  | .obj kvs => .obj (toValKV kvs)
+def toValL : List (Json N) → List (Val N)
+  | [] => []
+  | j :: js => toVal j :: toValL js
+def toValKV : List (String × Json N) → List (String × Val N)
+  | [] => []
+  | (k, j) :: rest => (k, toVal j) :: toValKV rest
+end
+
+mutual
+def uniqueKeys : Json N → Bool
+  | .arr xs => uniqueKeysL xs
+  | .obj kvs => (kvs.map (·.1)).Nodup && uniqueKeysKV kvs
+  | _ => true
+def uniqueKeysL : List (Json N) → Bool
+  | [] => true
+  | j :: js => uniqueKeys j && uniqueKeysL js
+def uniqueKeysKV : List (String × Json N) → Bool
+  | [] => true
+  | (_, j) :: rest => uniqueKeys j && uniqueKeysKV rest
+end
+
+
+/-- induction over JSON values (the nested inductive's own recursor is not usable by `induction`) -/
+theorem Json.ind {P : Json N → Prop}
+    (hnull : P .null) (hbool : ∀ b, P (.bool b)) (hnum : ∀ x, P (.num x)) (hstr : ∀ s, P (.str s))
+    (harr : ∀ xs, (∀ j ∈ xs, P j) → P (.arr xs))
+    (hobj : ∀ kvs, (∀ p ∈ kvs, P p.2) → P (.obj kvs)) : ∀ j, P j := by
+  intro j
+  exact go j
+where
+  go : (j : Json N) → P j
+    | .null => hnull
+    | .bool b => hbool b
+    | .num x => hnum x
+    | .str s => hstr s
+    | .arr xs => harr xs (goL xs)
+    | .obj kvs => hobj kvs (goKV kvs)
+  goL : (xs : List (Json N)) → ∀ j ∈ xs, P j
+    | [] => by intro j h; cases h
+    | x :: xs => by
+      intro j h
+      rcases List.mem_cons.mp h with h | h
+      · exact h ▸ go x
+      · exact goL xs j h
+  goKV : (kvs : List (String × Json N)) → ∀ p ∈ kvs, P p.2
+    | [] => by intro j h; cases h
+    | (k, x) :: kvs => by
+      intro p h
+      rcases List.mem_cons.mp h with h | h
+      · exact h ▸ go x
+      · exact goKV kvs p h
+
+theorem toVal_isArr (j : Json N) : (toVal j).isArr = true ↔ ∃ xs, j = .arr xs := by
+  cases j <;> simp [toVal, Val.isArr]
+
+/-- array constructor over literal members: each member is kept as one item -/
+theorem arrayItems_lit (r : Rec N) (d : Option (Val N)) (env : Nat) (xs : List (Json N))
+    (h : ∀ j ∈ xs, ∀ st, r.ev (toNode j) d env st = .ok (some (toVal j), st)) (st : Store N) :
+    evalArrayItems r d env (toNodeL xs) st = .ok (toValL xs, st) := by
+  induction xs with
+  | nil => rfl
+  | cons j js ih =>
+    have hj := h j (List.mem_cons_self) st
+    have ht := ih (fun j' hm => h j' (List.mem_cons_of_mem _ hm))
+    cases j <;>
+      simp [toNodeL, toValL, toNode, toVal, evalArrayItems, bind, StateT.bind, Except.bind, pure, StateT.pure,
+        Except.pure, arrayify] at hj ht ⊢ <;> simp [hj, ht] <;> rfl
+
+/-- the groups an object constructor with literal keys forms: one per pair, in order -/
+def litGroups : Nat → List (String × Json N) → List KeyIdx
+  | _, [] => []
+  | i, (k, _) :: rest => { key := k, pair := i, items := [] } :: litGroups (i + 1) rest
+
+theorem groupPairs_lit (r : Rec N) (env : Nat) (items : List (Option (Val N))) (kvs : List (String × Json N)) :
+    ∀ (i : Nat) (groups : List KeyIdx) (st : Store N), (kvs.map (·.1)).Nodup →
+      (∀ g ∈ groups, g.key ∉ kvs.map (·.1)) →
+      groupPairsLoop r env items i (toNodeKV kvs) groups st = .ok (groups ++ litGroups i kvs, st) := by
+  induction kvs with
+  | nil => intro i groups st _ _; simp [toNodeKV, groupPairsLoop, litGroups] <;> rfl
+  | cons p rest ih =>
+    obtain ⟨k, j⟩ := p
+    intro i groups st hnd hg
+    have hnd' := List.nodup_cons.mp hnd
+    have hany : groups.any (fun g => g.key == k) = false := by
+      rw [List.any_eq_false]
+      intro g hm hk
+      exact hg g hm (by simp at hk; simp [hk])
+    have := ih (i + 1) (groups ++ [{ key := k, pair := i, items := [] }]) st hnd'.2 (by
+      intro g hm
+      rcases List.mem_append.mp hm with hm | hm
+      · intro hin; exact hg g hm (List.mem_cons_of_mem _ hin)
+      · simp at hm; subst hm; exact hnd'.1)
+    simp [toNodeKV, groupPairsLoop, hany, litGroups, this]
+
+theorem build_lit (r : Rec N) (env : Nat) (items : List (Option (Val N))) (dataArr : Option (Val N))
+    (nItems : Nat) (kvs : List (String × Json N)) :
+    ∀ (pre : List (Node N × Node N)) (acc : List (String × Val N)) (st : Store N),
+      (∀ p ∈ kvs, ∀ st, r.ev (toNode p.2) dataArr env st = .ok (some (toVal p.2), st)) →
+      evalObject.build r (pre ++ toNodeKV kvs) env items dataArr nItems (litGroups pre.length kvs) acc st
+        = .ok (acc ++ toValKV kvs, st) := by
+  induction kvs with
+  | nil => intro pre acc st _; simp [litGroups, evalObject.build, toValKV] <;> rfl
+  | cons p rest ih =>
+    obtain ⟨k, j⟩ := p
+    intro pre acc st h
+    have hj := h (k, j) List.mem_cons_self st
+    have hrest := ih (pre ++ [(.str k, toNode j)]) (acc ++ [(k, toVal j)]) st
+      (fun p hm => h p (List.mem_cons_of_mem _ hm))
+    simp only [List.length_append, List.length_singleton, List.append_assoc, List.singleton_append] at hrest
+    simp [litGroups, evalObject.build, toNodeKV, toValKV, hj, bind, StateT.bind, Except.bind, hrest]
+
+theorem object_lit (r : Rec N) (d : Val N) (env : Nat) (kvs : List (String × Json N))
+    (hnd : (kvs.map (·.1)).Nodup)
+    (h : ∀ p ∈ kvs, ∀ (c : Val N) st, r.ev (toNode p.2) (some c) env st = .ok (some (toVal p.2), st))
+    (st : Store N) :
+    evalObject r (toNodeKV kvs) (some d) env st = .ok (some (.obj (toValKV kvs)), st) := by
+  have hb := fun items dataArr nItems hh => build_lit r env items dataArr nItems kvs [] [] st hh
+  simp only [List.nil_append, List.length_nil] at hb
+  unfold evalObject
+  simp only [Option.isNone_some, Bool.false_and, Bool.false_eq_true, ↓reduceIte, bind, StateT.bind, Except.bind]
+  rw [groupPairs_lit r env _ kvs 0 [] st hnd (by intro g hg; cases hg)]
+  simp only [List.nil_append]
+  cases d <;> (simp only []; rw [hb _ _ _ (fun p hm st => h p hm _ st)]; rfl)
+
+/-- a bound that serves every member of a list serves the list -/
+theorem bound_all {α : Type} (xs : List α) (Q : α → Nat → Prop) (hmono : ∀ a f g, f ≤ g → Q a f → Q a g)
+    (h : ∀ a ∈ xs, ∃ f, Q a f) : ∃ F, ∀ a ∈ xs, Q a F := by
+  induction xs with
+  | nil => exact ⟨0, by intro a h; cases h⟩
+  | cons x xs ih =>
+    obtain ⟨F, hF⟩ := ih (fun a hm => h a (List.mem_cons_of_mem _ hm))
+    obtain ⟨f, hf⟩ := h x List.mem_cons_self
+    refine ⟨max F f, ?_⟩
+    intro a hm
+    rcases List.mem_cons.mp hm with hm | hm
+    · subst hm; exact hmono _ _ _ (Nat.le_max_right _ _) hf
+    · exact hmono _ _ _ (Nat.le_max_left _ _) (hF a hm)
+
+theorem uniqueKeysL_mem (xs : List (Json N)) (h : uniqueKeysL xs = true) : ∀ j ∈ xs, uniqueKeys j = true := by
+  induction xs with
+  | nil => intro j hm; cases hm
+  | cons x xs ih =>
+    simp [uniqueKeysL] at h
+    intro j hm
+    rcases List.mem_cons.mp hm with hm | hm
+    · subst hm; exact h.1
+    · exact ih h.2 j hm
+
+theorem uniqueKeysKV_mem (kvs : List (String × Json N)) (h : uniqueKeysKV kvs = true) :
+    ∀ p ∈ kvs, uniqueKeys p.2 = true := by
+  induction kvs with
+  | nil => intro j hm; cases hm
+  | cons x xs ih =>
+    obtain ⟨k, x⟩ := x
+    simp [uniqueKeysKV] at h
+    intro j hm
+    rcases List.mem_cons.mp hm with hm | hm
+    · subst hm; exact h.1
+    · exact ih h.2 j hm
+
+/-- what the statement says of a JSON text: the expression denotes the value, on every input -/
+def Denotes (j : Json N) (f : Nat) : Prop :=
+  ∀ (d : Val N) (env : Nat) (st : Store N), eval f (toNode j) (some d) env st = .ok (some (toVal j), st)
+
+/-- **every JSON value with unique keys, of any depth and width, is an expression that evaluates to itself
+    on every input, in every environment, and leaves the store as it was**; the evaluator needs a nesting
+    budget no larger than some bound (its depth), and any larger budget gives the same answer. -/
+theorem literal_denotes (j : Json N) : uniqueKeys j = true → ∃ f0, ∀ f, f0 ≤ f → Denotes j f := by
+  induction j using Json.ind with
+  | hnull => intro _; exact ⟨1, fun f hf d env st => by cases f with | zero => omega | succ f => rfl⟩
+  | hbool b => intro _; exact ⟨1, fun f hf d env st => by cases f with | zero => omega | succ f => rfl⟩
+  | hnum x => intro _; exact ⟨1, fun f hf d env st => by cases f with | zero => omega | succ f => rfl⟩
+  | hstr s => intro _; exact ⟨1, fun f hf d env st => by cases f with | zero => omega | succ f => rfl⟩
+  | harr xs ih =>
+    intro hu
+    simp only [uniqueKeys] at hu
+    obtain ⟨F, hF⟩ := bound_all xs (fun j f => ∀ g, f ≤ g → Denotes j g)
+      (fun a f g hfg h g' hg' => h g' (Nat.le_trans hfg hg'))
+      (fun j hm => ih j hm (uniqueKeysL_mem xs hu j hm))
+    refine ⟨F + 1, ?_⟩
+    intro f hf d env st
+    cases f with
+    | zero => omega
+    | succ f =>
+      have := arrayItems_lit { ev := fun n d e => eval f n d e, call := fun g c a => callFn f g c a } (some d) env xs
+        (fun j hm st => hF j hm f (by omega) d env st) st
+      simp [eval, toNode, toVal, evalNode, bind, StateT.bind, Except.bind, this] <;> rfl
+  | hobj kvs ih =>
+    intro hu
+    simp only [uniqueKeys, Bool.and_eq_true, decide_eq_true_eq] at hu
+    obtain ⟨F, hF⟩ := bound_all kvs (fun p f => ∀ g, f ≤ g → Denotes p.2 g)
+      (fun a f g hfg h g' hg' => h g' (Nat.le_trans hfg hg'))
+      (fun p hm => ih p hm (uniqueKeysKV_mem kvs hu.2 p hm))
+    refine ⟨F + 1, ?_⟩
+    intro f hf d env st
+    cases f with
+    | zero => omega
+    | succ f =>
+      have := object_lit { ev := fun n d e => eval f n d e, call := fun g c a => callFn f g c a } d env kvs hu.1
+        (fun p hm c st => hF p hm f (by omega) c env st) st
+      simp [eval, toNode, toVal, evalNode, this]
+
+/-- the same through `Expr.Eval`'s entry point -/
+theorem literal_denotes_top (j : Json N) (hu : uniqueKeys j = true) :
+    ∃ f0, ∀ f, f0 ≤ f → ∀ d : Val N, evalTop f (toNode j) (some d) = .ok (some (toVal j)) := by
+  obtain ⟨f0, h⟩ := literal_denotes j hu
+  refine ⟨f0, fun f hf d => ?_⟩
+  simp [evalTop, StateT.run, h f hf d]
+
+/-- a repeated key is outside the statement, and is an error rather than a silently chosen member -/
+theorem duplicate_key_rejected (r : Rec N) (d : Val N) (env : Nat) (k : String) (a b : Node N) (st : Store N) :
+    evalObject r [(.str k, a), (.str k, b)] (some d) env st = .error (.eval .duplicateKey) := by
+  cases d <;> simp [evalObject, groupPairsLoop, bind, StateT.bind, Except.bind, throw, throwThe, MonadExceptOf.throw,
+    StateT.lift, liftM, monadLift, MonadLift.monadLift] <;> rfl
+
+/-! non-vacuity: a nested text with an empty array, an empty object, a one-member array and a nested array -/
+example : uniqueKeys (.obj [("a", .arr [.arr [], .arr [.num (1 : Int)], .obj []]), ("b", .null)] : Json Int) = true := by
+  decide
+
 
 /-! ### non-vacuity -/
 
